@@ -29,6 +29,7 @@ def Consents (s : State) (kind : StepKind) (signers : List Addr) (h : Addr) : Pr
     (∃ m, findMarker s h = some m ∧ ∃ x ∈ signers, m.has x .withdraw = true)
   | .mwithdraw => ∃ m, findMarker s h = some m ∧ ∃ x ∈ signers, m.has x .withdraw = true
   | .env => False
+  | .fill oid => ∃ o ∈ s.orders, o.id = oid ∧ o.seller = h
 
 /-- when `h'` is a restricted marker, one of `signers` has deposit on it -/
 def DepositP (s : State) (signers : List Addr) (h' : Addr) : Prop :=
@@ -51,6 +52,7 @@ theorem Consents.mono {s : State} {kind : StepKind} {sg sg' : List Addr} {h : Ad
   cases kind with
   | send => exact absurd rfl hk
   | env => exact hc
+  | fill oid => exact hc
   | mwithdraw =>
     obtain ⟨m, hm, x, hx, h1⟩ := hc
     exact ⟨m, hm, x, hsub _ hx, h1⟩
